@@ -224,3 +224,9 @@ theorem covers_iff_occ (t : OTree) (D : Set ℕ) : t.covers D ↔ ∀ n, t.occ n
 -- ---------------------------------------------------------------- C17: derivative of a function that agrees with another one near x
 theorem deriv_of_eventually_eq (u v : ℝ → ℝ) (u' : ℝ) (x : ℝ) (h : u =ᶠ[nhds x] v) (hu : HasDerivAt u u' x) :
     HasDerivAt v u' x := hu.congr_of_eventuallyEq h.symm
+
+-- psum_const: a sum of n equal entries (used for sum(x ** 0) = len(x))
+theorem psum_const (n : ℕ) (a : ℕ → ℝ) (c : ℝ) (h : ∀ i, i < n → a i = c) :
+    ∑ i ∈ Finset.range n, a i = n * c := by
+  rw [Finset.sum_congr rfl (fun i hi => h i (Finset.mem_range.mp hi))]
+  simp
